@@ -209,8 +209,10 @@ def s12_layer_frame(chk: Check, proj: Project, w) -> None:
     sm_, sf_ = proj.func("slots", "SlotNode.render")
     ctxp = params(sf_)[1]
     marker = None
+    # the dict that is pushed on the fill's context around the slot call: `with <used>.update(<pushed>)`
+    pushed = {norm(it.context_expr.args[0]) for w_ in ast.walk(sf_) if isinstance(w_, ast.With) for it in w_.items if isinstance(it.context_expr, ast.Call) and isinstance(it.context_expr.func, ast.Attribute) and it.context_expr.func.attr == "update" and it.context_expr.args and isinstance(it.context_expr.args[0], ast.Name)}
     for st in stmts(sf_):
-        if isinstance(st, ast.Assign) and isinstance(st.targets[0], ast.Subscript) and norm(st.targets[0].value) == "extra_context" and isinstance(st.value, ast.Compare) and len(st.value.ops) == 1 and isinstance(st.value.ops[0], (ast.Is, ast.IsNot)) and ctxp in {norm(st.value.left), norm(st.value.comparators[0])}:
+        if isinstance(st, ast.Assign) and isinstance(st.targets[0], ast.Subscript) and norm(st.targets[0].value) in pushed and isinstance(st.value, ast.Compare) and len(st.value.ops) == 1 and isinstance(st.value.ops[0], (ast.Is, ast.IsNot)) and ctxp in {norm(st.value.left), norm(st.value.comparators[0])}:
             marker = (norm(st.targets[0].slice), isinstance(st.value.ops[0], ast.IsNot), st)
     def _marker_atoms(node: ast.AST) -> List[Tuple[str, bool]]:
         return [(t, pol) for t, pol in cond_atoms(node) if marker is not None and marker[0] in t]
